@@ -170,6 +170,19 @@ func c15GenWorld(rng *core.Rng, tier string, kind string, small bool) c15World {
 			o.MaxFrames = 1500
 		}
 		sp := hx.RandomAssetSpec(rng, o)
+		if i > 0 && sp.Class == "good" && rng.Chance(0.12) {
+			// audio whose inner segment has two samples of other durations than the rest: first and last segment look
+			// regular, only a full scan sees that there is no constant sample duration (class "jitter": the server may
+			// leave the asset or its audio out, but scan and cache must agree)
+			for ri := range sp.Reps {
+				if rp := &sp.Reps[ri]; rp.Kind == "audio" && len(rp.SegFrames) >= 3 && rp.SegFrames[1] >= 2 {
+					rp.DurMode = ""
+					rp.JitterSeg = 2 + rng.Intn(len(rp.SegFrames)-2)
+					sp.Class = "jitter"
+					break
+				}
+			}
+		}
 		w.Gen = append(w.Gen, sp)
 		alt := hx.AssetSpec{}
 		if kind == "damaged" && rng.Chance(0.5) {
@@ -1163,6 +1176,8 @@ func (r *c15Run) opCompare(op c15Op) {
 			res.Count("probe.bad-asset-" + a.Class)
 		} else if !listedA && a.Class == "gap" {
 			res.Count("probe.gap-asset-left-out-" + a.Traits["gapin"])
+		} else if !listedA && a.Class == "jitter" {
+			res.Count("probe.jitter-asset-left-out")
 		} else if !listedA {
 			res.Violate("C15.sanity-good-asset-served", core.Sig("kind", "good-asset-not-listed", "class", a.Class),
 				"asset %s (%s) is not listed by the scanning instance", a.Name, a.Class)
@@ -1181,11 +1196,19 @@ func (r *c15Run) opCompare(op c15Op) {
 		var first *c15Obs
 		absent := !listedB
 		n200 := 0
+		jitterPanic := false
 		for i := range obs {
 			o := &obs[i]
 			res.Event("%s %s t=%d -> %d/%d %s/%s", o.class, o.url, o.now, o.a.Status, o.b.Status, hx.ShortHash(o.a.Body), hx.ShortHash(o.b.Body))
 			if o.a.Status == 200 {
 				n200++
+			}
+			if a.Class == "jitter" && o.a.Panic != "" && !jitterPanic {
+				// an asset that the loader refuses (audio without constant sample duration) must be left out, not half
+				// registered: its requests may be 404, never a handler that dies
+				jitterPanic = true
+				res.Violate("C15.bad-asset-left-out", core.Sig("kind", "handler-panic", "class", a.Class, "req", o.class, "frame", o.a.PanicFrame),
+					"%s (asset class %s) on the scanning instance: panic %s", o.url, a.Class, trunc(o.a.Panic, 120))
 			}
 			if o.b.Panic != "" && o.a.Panic == o.b.Panic {
 				// both instances panic alike: not a cache matter (C08/C03 territory)
